@@ -352,6 +352,15 @@ func work(ctx *runner.Ctx) {
 	}
 	cases = append(cases, cs{Mode: "circuit", Src: "package main\nfunc main(a, b uint8) (uint8, uint8) {\n\treturn a * b, a / (b | 1)\n}\n", G: "201", E: "77", OT: "co"})
 	cases = append(cases, cs{Mode: "circuit", Src: "package main\nfunc main(a, b uint8) (uint8, uint8) {\n\treturn a * b, a / (b | 1)\n}\n", G: "201", E: "77", OT: "cot"})
+	// input bits that no gate reads (a narrowing cast, an unused argument, an unused struct field), set to 1: the
+	// garbler still sends one label per input bit
+	for _, o := range []string{"co", "cot"} {
+		cases = append(cases, cs{Mode: "circuit", Src: "package main\nfunc main(a uint16, b uint8) uint8 {\n\treturn uint8(a) + b\n}\n", G: "65535", E: "7", OT: o, Seed: uint64(ctx.Seed)})
+		cases = append(cases, cs{Mode: "circuit", Src: "package main\nfunc main(a uint16, b uint16) uint8 {\n\treturn uint8(a>>4) & uint8(b)\n}\n", G: "61455", E: "65535", OT: o, Seed: uint64(ctx.Seed)})
+		cases = append(cases, cs{Mode: "circuit", Src: "package main\ntype P struct {\n\tx uint8\n\tunused uint8\n}\nfunc main(a P, b uint8) uint8 {\n\treturn a.x * b\n}\n", G: "65281", E: "3", OT: o, Seed: uint64(ctx.Seed)})
+		cases = append(cases, cs{Mode: "circuit", Circ: &circgen.Desc{In: []int{3, 2}, Out: []int{1}, Gates: []circgen.G{{2, 0, 3}}}, G: "7", E: "3", OT: o, Seed: uint64(ctx.Seed)})
+		cases = append(cases, cs{Mode: "stream", Src: "package main\nfunc main(a uint16, b uint8) uint8 {\n\treturn uint8(a) + b\n}\n", G: "65535", E: "7", OT: o, Seed: uint64(ctx.Seed)})
+	}
 	// randomness sources that return short reads (an io.Reader may): whole-circuit and streaming sessions with
 	// 8..300 input bits per party, chunk limits below, at and above a label (16 bytes) and a batch of labels
 	wideX := "package main\nfunc main(a, b uint300) uint300 {\n\treturn a ^ b\n}\n"
